@@ -6,14 +6,22 @@ import vlib
 from checks import c08 as S
 
 THEOREMS = [
-    # theorem I and what C09 uses from it
+    # theorem I (both invariants) and what C09 uses from it
     "SC.inv_reachable", "SC.inv_reachable_init", "SC.assert_epoch_unreachable",
-    # only the publishing step of a commit changes a table; exactness of an insert commit
-    "SC.kstep_stable_gen", "SC.frame_other_steps", "SC.commit_result", "SC.insert_commit_exact",
+    "SC.dvinv_init", "SC.dvinv_kstep", "SC.dvinv_reachable", "SC.reserved_no_dv",
+    # only the publishing step of a commit changes a table
+    "SC.kstep_stable_gen", "SC.frame_other_steps", "SC.commit_result",
     # under the lock-discipline hypothesis the changesets are the sequential ones
-    "SC.fresh_plan_eq", "SC.fresh_handlers_eq", "SC.final_state_exact",
-    # a compaction whose plan is fresh leaves exactly the merged live rows of the current snapshot
+    "SC.fresh_plan_eq", "SC.fresh_handlers_eq", "SC.fresh_changesets_sequential",
+    # exactness of each kind of commit
+    "SC.insert_commit_exact",
+    "SC.liveFrom_extra", "SC.mem_scan", "SC.scan?_filter", "SC.applyOps_dvOps", "SC.mem_deadOf_push",
+    "SC.delete_commit_exact",
     "SC.applyOps_dels_eq", "SC.compaction_commit_exact", "SC.compaction_fresh_exact",
+    "SC.sortKeys_perm", "SC.scan?_perm", "SC.compaction_rows_perm",
+    "SC.applyOps_dels_other", "SC.compaction_empty_commit_exact",
+    # the bundle: insert + delete + compaction on any number of tables, only FreshSnapshot assumed
+    "SC.final_state_exact",
     # what the code that exists does: refutation of the unconditional statement, by evaluation
     "SC.stale_snapshot_witness", "SC.delete_after_compaction_witness",
     "SC.final_state_exact_unconditional_false",
